@@ -69,6 +69,14 @@ func verifPopulateGenesis(st *State) types.Hash {
 	st.Halts.AddHaltBlock(900, P)
 	st.Halts.AddHaltBlock(901, Q)
 	st.Updates.AddVote(800, P, "v9")
+	// a pending commission vote for a table that differs from the current one in
+	// several entries (the last ones of the struct included)
+	voted := verifPriceTable()
+	voted.Send = verifE18(1002)
+	voted.LockStake = verifE18(1047)
+	voted.Lock = verifE18(1048)
+	voted.FailedTx = verifE18(1043)
+	st.Commission.AddVote(850, P, voted.Encode())
 	var h types.Hash
 	h[0], h[1], h[31] = verifByte("check.hash0"), 7, 9
 	st.Checks.UseCheckHash(h)
@@ -129,6 +137,8 @@ func VerifHarness_C11_ExportImport() {
 	verifAssert("C11:same-halts", verifDeepEq(exp1.HaltBlocks, exp2.HaltBlocks))
 	verifAssert("C11:same-update-votes", verifDeepEq(exp1.UpdateVotes, exp2.UpdateVotes))
 	verifAssert("C11:same-commission", verifDeepEq(exp1.Commission, exp2.Commission))
+	verifAssert("C11:export-lists-the-commission-vote", len(exp1.CommissionVotes) == 1)
+	verifAssert("C11:same-commission-votes", verifDeepEq(exp1.CommissionVotes, exp2.CommissionVotes))
 	verifAssert("C11:same-total-slashed", exp1.TotalSlashed == exp2.TotalSlashed)
 	verifAssert("C11:same-max-gas", exp1.MaxGas == exp2.MaxGas)
 }
